@@ -179,7 +179,14 @@ func (e Effect) String() string {
 	return e.Kind + " " + e.Target + "(" + e.Val + ")"
 }
 
+// Event is one step of a path in program order: a branch literal or an effect.
+type Event struct {
+	Lit *Lit
+	Eff *Effect
+}
+
 type Path struct {
+	Events  []Event
 	Lits    []Lit
 	Effects []Effect
 	Ret     []string
@@ -214,6 +221,8 @@ type EnumOpts struct {
 	KeepCall func(c *ssa.CallCommon) bool
 	// NoPrune disables the pruning of paths with contradictory literals.
 	NoPrune bool
+	// NoLoopExit ends a path at the first back edge instead of leaving inner loops.
+	NoLoopExit bool
 }
 
 type EnumResult struct {
@@ -296,7 +305,9 @@ func canonAtom(op, l, r string, val bool) (Atom, bool) {
 	return Atom{Op: op, L: l, R: r}, val
 }
 
-// EnumPaths enumerates the acyclic paths of fn (or of a region of it).
+// EnumPaths enumerates the acyclic paths of fn (or of a region of it). An inner loop is
+// traversed once and then left through its exit edge (second visit of its header takes only
+// successors that are not on the path yet); a third visit ends the path as "backedge".
 func (w *World) EnumPaths(fn *ssa.Function, o EnumOpts) EnumResult {
 	if o.MaxPaths == 0 {
 		o.MaxPaths = 4096
@@ -311,16 +322,26 @@ func (w *World) EnumPaths(fn *ssa.Function, o EnumOpts) EnumResult {
 		effects []Effect
 		blocks  []int
 		phi     map[*ssa.Phi]ssa.Value
-		onPath  map[int]bool
+		onPath  map[int]int
 		mem     map[*ssa.Alloc]ssa.Value
+		order   []byte // 'L' / 'E' in program order
 	}
-	var walk func(b *ssa.BasicBlock, prev *ssa.BasicBlock, f frame)
 	finish := func(f frame, end string, rets []ssa.Value) {
 		if len(res.Paths) >= o.MaxPaths {
 			res.Truncated = true
 			return
 		}
 		p := &Path{Lits: f.lits, Effects: f.effects, Blocks: f.blocks, End: end, phi: f.phi, RetVals: rets}
+		li, ei := 0, 0
+		for _, k := range f.order {
+			if k == 'L' {
+				p.Events = append(p.Events, Event{Lit: &p.Lits[li]})
+				li++
+			} else {
+				p.Events = append(p.Events, Event{Eff: &p.Effects[ei]})
+				ei++
+			}
+		}
 		w.phiEnv, w.memEnv = f.phi, f.mem
 		for i, r := range rets {
 			p.Ret = append(p.Ret, w.AP(r))
@@ -329,11 +350,13 @@ func (w *World) EnumPaths(fn *ssa.Function, o EnumOpts) EnumResult {
 		w.phiEnv, w.memEnv = nil, nil
 		res.Paths = append(res.Paths, p)
 	}
+	var walk func(b *ssa.BasicBlock, prev *ssa.BasicBlock, f frame)
 	walk = func(b *ssa.BasicBlock, prev *ssa.BasicBlock, f frame) {
 		if res.Truncated {
 			return
 		}
-		if f.onPath[b.Index] {
+		visits := f.onPath[b.Index]
+		if visits >= 2 || (visits == 1 && (b == start || o.NoLoopExit)) {
 			finish(f, fmt.Sprintf("backedge:%d", b.Index), nil)
 			return
 		}
@@ -341,13 +364,14 @@ func (w *World) EnumPaths(fn *ssa.Function, o EnumOpts) EnumResult {
 			finish(f, fmt.Sprintf("stop:%d", b.Index), nil)
 			return
 		}
-		// copy frame
+		exiting := visits == 1
 		nf := frame{
 			lits:    append([]Lit(nil), f.lits...),
 			effects: append([]Effect(nil), f.effects...),
 			blocks:  append(append([]int(nil), f.blocks...), b.Index),
+			order:   append([]byte(nil), f.order...),
 			phi:     map[*ssa.Phi]ssa.Value{},
-			onPath:  map[int]bool{},
+			onPath:  map[int]int{},
 			mem:     map[*ssa.Alloc]ssa.Value{},
 		}
 		for k, v := range f.phi {
@@ -356,10 +380,10 @@ func (w *World) EnumPaths(fn *ssa.Function, o EnumOpts) EnumResult {
 		for k, v := range f.mem {
 			nf.mem[k] = v
 		}
-		for k := range f.onPath {
-			nf.onPath[k] = true
+		for k, v := range f.onPath {
+			nf.onPath[k] = v
 		}
-		nf.onPath[b.Index] = true
+		nf.onPath[b.Index]++
 		// resolve phis by the edge taken
 		if prev != nil {
 			pi := -1
@@ -375,17 +399,28 @@ func (w *World) EnumPaths(fn *ssa.Function, o EnumOpts) EnumResult {
 				}
 				if pi >= 0 {
 					v := ph.Edges[pi]
-					// chase phi-of-phi within the environment
 					if p2, ok := v.(*ssa.Phi); ok {
 						if r, ok := nf.phi[p2]; ok {
 							v = r
 						}
 					}
-					nf.phi[ph] = v
+					selfRef := false
+					if in2, ok := v.(ssa.Instruction); ok {
+						for _, op := range in2.Operands(nil) {
+							if *op == ssa.Value(ph) {
+								selfRef = true
+							}
+						}
+					}
+					if exiting || selfRef {
+						// value after an unknown number of iterations: forget the binding
+						delete(nf.phi, ph)
+					} else {
+						nf.phi[ph] = v
+					}
 				}
 			}
 		}
-		w.phiEnv = nf.phi
 		defer func() { w.phiEnv, w.memEnv = nil, nil }()
 		for _, in := range b.Instrs {
 			w.phiEnv, w.memEnv = nf.phi, nf.mem
@@ -394,18 +429,27 @@ func (w *World) EnumPaths(fn *ssa.Function, o EnumOpts) EnumResult {
 				if a, ok := w.resolveAddr(x.Addr).(*ssa.Alloc); ok {
 					nf.mem[a] = w.Resolve(x.Val)
 				}
-				nf.effects = append(nf.effects, Effect{Kind: "store", Target: w.apAddr(x.Addr), Val: w.AP(x.Val), In: in})
+				if !exiting {
+					nf.effects = append(nf.effects, Effect{Kind: "store", Target: w.apAddr(x.Addr), Val: w.AP(x.Val), In: in})
+					nf.order = append(nf.order, 'E')
+				}
 			case *ssa.MapUpdate:
-				nf.effects = append(nf.effects, Effect{Kind: "mapupdate", Target: w.AP(x.Map) + "[" + w.AP(x.Key) + "]", Val: w.AP(x.Value), In: in})
+				if !exiting {
+					nf.effects = append(nf.effects, Effect{Kind: "mapupdate", Target: w.AP(x.Map) + "[" + w.AP(x.Key) + "]", Val: w.AP(x.Value), In: in})
+					nf.order = append(nf.order, 'E')
+				}
 			case *ssa.Send:
-				nf.effects = append(nf.effects, Effect{Kind: "send", Target: w.AP(x.Chan), Val: w.AP(x.X), In: in})
+				if !exiting {
+					nf.effects = append(nf.effects, Effect{Kind: "send", Target: w.AP(x.Chan), Val: w.AP(x.X), In: in})
+					nf.order = append(nf.order, 'E')
+				}
 			case *ssa.Call, *ssa.Go, *ssa.Defer:
 				c := callCommonOf(in)
 				keep := !isLogCall(c)
 				if o.KeepCall != nil {
 					keep = o.KeepCall(c)
 				}
-				if keep {
+				if keep && !exiting {
 					kind := "call"
 					switch in.(type) {
 					case *ssa.Go:
@@ -427,10 +471,13 @@ func (w *World) EnumPaths(fn *ssa.Function, o EnumOpts) EnumResult {
 						tgt = w.AP(c.Value) + "." + c.Method.Name()
 					} else if sf := c.StaticCallee(); sf != nil {
 						tgt = FuncName(sf)
+					} else if cf := funcValue(c.Value); cf != nil {
+						tgt = FuncName(cf)
 					} else {
 						tgt = "dyn:" + w.AP(c.Value)
 					}
 					nf.effects = append(nf.effects, Effect{Kind: kind, Target: tgt, Val: strings.Join(args, ","), In: in, Callee: c.StaticCallee()})
+					nf.order = append(nf.order, 'E')
 				}
 			case *ssa.Return:
 				w.phiEnv, w.memEnv = nil, nil
@@ -442,10 +489,23 @@ func (w *World) EnumPaths(fn *ssa.Function, o EnumOpts) EnumResult {
 				return
 			case *ssa.If:
 				w.phiEnv, w.memEnv = nil, nil
+				if exiting {
+					// leave the loop: only successors not on the path yet
+					took := false
+					for si, sc := range b.Succs {
+						if nf.onPath[sc.Index] == 0 {
+							took = true
+							walk(b.Succs[si], b, nf)
+						}
+					}
+					if !took {
+						finish(nf, fmt.Sprintf("backedge:%d", b.Index), nil)
+					}
+					return
+				}
 				w.branch(x, nf.phi, nf.mem, func(succ int, lit *Lit) {
 					g := nf
 					if lit != nil {
-						// prune contradictions
 						if !o.NoPrune {
 							for _, l := range g.lits {
 								if l.Atom == lit.Atom && l.Val != lit.Val && !storedBetween(g.effects, l, lit.Atom) {
@@ -455,6 +515,7 @@ func (w *World) EnumPaths(fn *ssa.Function, o EnumOpts) EnumResult {
 							}
 						}
 						g.lits = append(append([]Lit(nil), nf.lits...), *lit)
+						g.order = append(append([]byte(nil), nf.order...), 'L')
 					}
 					walk(b.Succs[succ], b, g)
 				})
@@ -466,12 +527,11 @@ func (w *World) EnumPaths(fn *ssa.Function, o EnumOpts) EnumResult {
 			}
 		}
 		w.phiEnv, w.memEnv = nil, nil
-		// block without terminator successor (e.g. ends in a no-return call)
 		if len(b.Succs) == 0 {
 			finish(nf, "exit", nil)
 		}
 	}
-	walk(start, nil, frame{phi: map[*ssa.Phi]ssa.Value{}, onPath: map[int]bool{}, mem: map[*ssa.Alloc]ssa.Value{}})
+	walk(start, nil, frame{phi: map[*ssa.Phi]ssa.Value{}, onPath: map[int]int{}, mem: map[*ssa.Alloc]ssa.Value{}})
 	return res
 }
 
